@@ -175,6 +175,9 @@ class ConvSim(WorldBase):
                 a["flatten"] = {"levels": g.choice([depth - 1, g.randint(1, depth - 1)]), "style": g.choice(["tuple", "pair", "pair"])}
                 evs.append(["build", a])
                 continue
+            if kind == "tensor" and depth >= 2 and g.random() < 0.15:
+                # integer coordinates, but a rank id that is a list of the flattened ranks' ids: this one is dumped
+                a["flatten"] = {"levels": g.randint(1, depth - 1), "style": "linear"}
             evs.append(["build", a])
             pre = g.choice(["none", "none", "older", "older_longer"])
             path = f"{key}.yaml"
@@ -443,7 +446,9 @@ class ConvSim(WorldBase):
         # what the file must give back: the object as it was when it was dumped
         if kind == "tensor":
             self.dumped[a["path"]] = {"content": ob.content(ob.root_of(o), 0), "ids": list(o.getRankIds()),
-                                      "shape": o.getShape(), "name": o.getName()}
+                                      "shape": o.getShape(), "name": o.getName(),
+                                      "tuple_coords": any("tuple" in repr(x) for x in _coord_types(ob.root_of(o)))
+                                      if isinstance(ob.root_of(o), Fiber) else False}
         else:
             self.dumped[a["path"]] = {"content": ob.content(o, 0)}
         return {"file_events": fs.n}
@@ -497,7 +502,11 @@ class ConvSim(WorldBase):
                 else:
                     f2 = Fiber.fromYAMLfile(path)
         except SystemExit:
-            self.V("C13", "C13.yaml-roundtrip", "load", "the library could not parse its own dump and called exit()")
+            snap0 = self.dumped.get(a["path"]) or {}
+            tc = snap0.get("tuple_coords")
+            self.V("C13", "C13.yaml-roundtrip", "load",
+                   "the library could not parse its own dump and called exit(); the dumped object had "
+                   + ("tuple coordinates" if tc else "only integer coordinates") + f" (rank ids {snap0.get('ids')})")
             return {"status": "exit"}
         except Exception as e:
             self.V("C13", "C13.yaml-roundtrip", "load", f"loading the dump raised {type(e).__name__}: {str(e)[:80]}")
